@@ -106,3 +106,114 @@ pub fn probe(args: &[String]) -> i32 {
         }
     }
 }
+
+/// Convert a libFuzzer artifact (raw bytes) of `target` into a replay file for `prop`, re-run it
+/// through the plain replay path, print the VIOLATION line if it fails there too.
+pub fn fuzz_artifact(prop: &str, target: &str, file: &str) -> i32 {
+    use crate::runner::Case;
+    let Ok(data) = std::fs::read(file) else { return 2 };
+    let (kind, case): (&str, J) = match (target, prop) {
+        ("zinc_decode", "C03") => {
+            let (plan, body) = c03::split_fuzz_input(&data);
+            ("doc", c03::Doc { bytes: body.to_vec(), plan, origin: "zinc-libfuzzer".into() }.to_json())
+        }
+        ("zinc_decode", _) => {
+            let (plan, body) = c03::split_fuzz_input(&data);
+            ("fixpoint+chunking", c03::Doc { bytes: body.to_vec(), plan, origin: "zinc-libfuzzer".into() }.to_json())
+        }
+        ("hayson_decode", "C03") => ("doc", c03::Doc { bytes: data.clone(), plan: Default::default(), origin: "hayson-libfuzzer".into() }.to_json()),
+        ("hayson_decode", "C10") => ("foreign-hayson", J::String(String::from_utf8_lossy(&data).to_string())),
+        ("hayson_decode", _) => ("fixpoint+chunking", c03::Doc { bytes: data.clone(), plan: Default::default(), origin: "hayson-libfuzzer".into() }.to_json()),
+        ("filter_parse", _) => ("filter-text", c09::ftext_from_fuzz(&data).to_json()),
+        ("zinc_value", p) => match crate::gen::arb::value_and_choices(&data) {
+            Some((v, choices)) => match p {
+                "C01" => ("zinc-rt", v.to_json()),
+                "C02" => ("hayson-rt", v.to_json()),
+                _ => ("zinc-B", c04::Spelled { v, choices }.to_json()),
+            },
+            None => return 0,
+        },
+        _ => return 2,
+    };
+    let mut rec = crate::runner::Rec::new();
+    let mut v = crate::runner::guarded(|| replay(prop, kind, &case, &mut rec)).unwrap_or_else(|p| Verdict::fail(format!("{prop}:panic"), p.msg));
+    let mut kind = kind;
+    if !v.is_fail() && target == "zinc_value" && prop == "C04" {
+        // direction A of C04 uses the value alone
+        if let Ok(sp) = c04::Spelled::from_json(&case) {
+            let a = replay(prop, "zinc-A", &sp.v.to_json(), &mut rec);
+            if a.is_fail() {
+                v = a;
+                kind = "zinc-A";
+            }
+        }
+    }
+    match v {
+        Verdict::Pass => {
+            println!("artifact {file} does not fail through the replay path (target-only effect): ignored");
+            0
+        }
+        Verdict::Fail { sig, msg } => {
+            let dir = crate::runner::verif_root().join("violations");
+            let _ = std::fs::create_dir_all(&dir);
+            let case = if kind == "zinc-A" { c04::Spelled::from_json(&case).map(|s| s.v.to_json()).unwrap_or(case) } else { case };
+            let path = dir.join(format!("{prop}-libfuzzer-{target}-{:016x}.json", crate::runner::fnv64(&data)));
+            let doc = serde_json::json!({"property": prop, "kind": kind, "signature": sig, "message": msg, "case": case, "found_by": format!("libFuzzer target {target}")});
+            let _ = std::fs::write(&path, serde_json::to_string_pretty(&doc).unwrap());
+            println!("VIOLATION property={prop} replay={}", path.display());
+            println!("  kind={kind} signature={sig}");
+            println!("  {}", msg.lines().next().unwrap_or(""));
+            1
+        }
+    }
+}
+
+/// Deterministic seed corpus for the libFuzzer targets (committed under /verif/corpus).
+pub fn gen_corpus(root: &str) -> i32 {
+    use crate::gen::value::{top_value, GenCfg};
+    use proptest::strategy::{Strategy, ValueTree};
+    use proptest::test_runner::{Config, RngAlgorithm, TestRng, TestRunner};
+    let mut runner = TestRunner::new_with_rng(Config::default(), TestRng::from_seed(RngAlgorithm::ChaCha, &[7u8; 32]));
+    let vals = top_value(GenCfg::wf(2));
+    let filters = crate::gen::filter::filter_or(1, true);
+    for t in ["zinc_decode", "hayson_decode", "filter_parse", "zinc_value"] {
+        let _ = std::fs::create_dir_all(format!("{root}/{t}"));
+    }
+    let mut rec = crate::runner::Rec::new();
+    rec.on = false;
+    for i in 0..48 {
+        let v = vals.new_tree(&mut runner).unwrap().current();
+        let v = c04::spellable(&v, &mut rec);
+        let z = crate::refimpl::zinc::write(&v, &mut crate::refimpl::zinc::Ch::canonical());
+        if z.len() < 600 {
+            let mut b = vec![(i * 37 % 256) as u8];
+            b.extend_from_slice(z.as_bytes());
+            let _ = std::fs::write(format!("{root}/zinc_decode/gen-{i:02}"), b);
+        }
+        let h = crate::refimpl::hayson::write(&v, &mut crate::refimpl::zinc::Ch::canonical());
+        if h.len() < 800 {
+            let _ = std::fs::write(format!("{root}/hayson_decode/gen-{i:02}"), h);
+        }
+        let f = filters.new_tree(&mut runner).unwrap().current();
+        let text = crate::gen::filter::print(&f, &[]).0;
+        if text.len() < 300 {
+            let mut b = vec![1u8, 2, 0, 4, 5, 3];
+            b.extend_from_slice(text.as_bytes());
+            let _ = std::fs::write(format!("{root}/filter_parse/gen-{i:02}"), b);
+        }
+    }
+    // token dictionaries
+    let dict = |name: &str, toks: &[&str]| {
+        let mut s = String::new();
+        for t in toks {
+            let esc: String = t.bytes().map(|b| if b.is_ascii_alphanumeric() || b" :,[]{}<>()@^-+._/=!*?".contains(&b) { (b as char).to_string() } else { format!("\\x{b:02x}") }).collect();
+            s.push_str(&format!("\"{esc}\"\n"));
+        }
+        let _ = std::fs::create_dir_all(format!("{root}/../dict"));
+        let _ = std::fs::write(format!("{root}/../dict/{name}.dict"), s);
+    };
+    dict("zinc_decode", crate::gen::mutate::ZINC_TOKENS);
+    dict("hayson_decode", crate::gen::mutate::JSON_TOKENS);
+    dict("filter_parse", crate::gen::mutate::FILTER_TOKENS);
+    0
+}
